@@ -5,12 +5,12 @@ OUT="$1"; shift
 N=${JOBS:-10}
 HEAD=$(git -C /repo rev-parse HEAD)
 rm -f /tmp/rc_out_*.txt /tmp/rc_list_*.txt
-for d in "$@"; do echo "$d"; done > /tmp/rc_all.txt
+for d in "$@"; do echo "$d"; done > /tmp/rc_list_all.txt
 for j in $(seq 1 $N); do
   W=/tmp/rc_wt_$j
   git -C /repo worktree remove --force $W 2>/dev/null
   git -C /repo worktree add -q --detach $W $HEAD || exit 2
-  awk -v n=$N -v j=$j 'NR % n == j % n' /tmp/rc_all.txt > /tmp/rc_list_$j.txt
+  awk -v n=$N -v j=$j 'NR % n == j % n' /tmp/rc_list_all.txt > /tmp/rc_list_$j.txt
   ( while read d; do
       name=$(basename $d)
       DEMO=$(ls $d | grep -E '^demo.*\.py$' | head -1)
